@@ -548,6 +548,48 @@ theorem print_parse_exact (fl : Flags) (c : Cfg) (x : Text) (toks : List Tok) (d
   have := print_parse_modulo_members fl c x toks d hnl hdesc hind hlex hparse
   rwa [hm] at this
 
+/-! ### depth (finding R7)
+
+The model printer is a total function of the tree; the implementation is recursive Python and raises RecursionError on
+trees nested a few hundred levels deep that the parser still produces (known finding R7, boundary measured on every run).
+The two theorems below state what the model prints at EVERY depth, so that the finding is a divergence of the
+implementation from the model and not a property of the specification. -/
+
+/-- `[[[ … 1 … ]]]`, `n` levels -/
+def nestList : Nat → Value
+  | 0 => .int [49] none
+  | n + 1 => .list [nestList n] none
+
+/-- `[[[ … Int … ]]]`, `n` levels -/
+def nestListType : Nat → TypeRef
+  | 0 => .named ⟨⟨[73, 110, 116], none⟩, none⟩
+  | n + 1 => .list (nestListType n) none
+
+private theorem replicate_snoc (k a : Nat) : List.replicate k a ++ [a] = a :: List.replicate k a := by
+  induction k with
+  | zero => rfl
+  | succ j ih => simp [List.replicate_succ, ih]
+
+/-- `print_deep_list` — the printed text of a list value nested `n` levels deep, for every `n` -/
+theorem print_deep_list (c : Cfg) (n : Nat) :
+    printValue c (nestList n) = List.replicate n 91 ++ [49] ++ List.replicate n 93 := by
+  induction n with
+  | zero => simp [nestList, printValue]
+  | succ k ih =>
+    have hne : (printValue c (nestList k)).isEmpty = false := by rw [ih]; cases k <;> simp [List.replicate_succ]
+    simp only [nestList, printValue, printValues, join, List.filter, hne, Bool.not_false, joinSep]
+    rw [ih]
+    simp [List.replicate_succ, List.append_assoc, replicate_snoc]
+
+/-- `print_deep_list_type` — the same for list types -/
+theorem print_deep_list_type (n : Nat) :
+    printType (nestListType n) = List.replicate n 91 ++ [73, 110, 116] ++ List.replicate n 93 := by
+  induction n with
+  | zero => simp [nestListType, printType, printNamedType]
+  | succ k ih =>
+    simp only [nestListType, printType, ih]
+    simp [List.replicate_succ, List.append_assoc, replicate_snoc]
+
 /-- `print_parse_partial` — SUPERSEDED summary (kept because the name is registered).  At TREE level everything is now
     proved, for every indentation configuration over {space, tab} and every flag combination with `no_location`:
       types (`print_parse_type`), values without any block-string hypothesis (`print_parse_value_full`, `block_lay_canon`),
